@@ -1004,7 +1004,9 @@ func imageHasAlpha(img image.Image) bool {
 	for y := bounds.Min.Y; y < bounds.Max.Y; y++ {
 		for x := bounds.Min.X; x < bounds.Max.X; x++ {
 			_, _, _, a := img.At(x, y).RGBA()
-			if a != 0xffff {
+			// The pixels are consumed through their 8-bit reading (alpha = a>>8):
+			// 0xff00..0xfffe is opaque there and must not call for an alpha plane.
+			if a>>8 != 0xff {
 				return true
 			}
 		}
